@@ -3,11 +3,13 @@
 package service
 
 import (
+	"net"
 	"github.com/cuteLittleDevil/go-jt808/protocol/model"
 	"github.com/cuteLittleDevil/go-jt808/shared/consts"
 )
 
 func init() {
+	vrtHarnesses["VerifC09Schedules"] = VerifC09Schedules
 	vrtHarnesses["VerifC09Stable"] = VerifC09Stable
 }
 
@@ -106,4 +108,105 @@ func VerifC09Stable() {
 	vrt_Cover("fast-path-then-more", kinds[0] == 0)
 	vrt_Cover("buffered-path-then-more", kinds[0] == 2)
 	vrt_Cover("two-reassembled-messages", kinds[0] == 3 && kinds[1] == 3)
+}
+
+// c09Rec snapshots every message at the moment a callback sees it.
+type c09Rec struct {
+	vRecorder
+	wrote [][]byte // bytes each write callback was shown (PlatformData), copied
+	wsnap []vSnap  // the message as the write callback saw it
+	wmsgs []Message
+	conn  *net.TCPConn
+	writtenAtRead []int // number of frames on the socket when each read callback ran
+}
+
+func (r *c09Rec) OnReadExecutionEvent(msg *Message) {
+	r.vRecorder.OnReadExecutionEvent(msg)
+	r.writtenAtRead = append(r.writtenAtRead, len(c06Frames(vrt_ConnWritten(r.conn))))
+}
+
+func (r *c09Rec) OnWriteExecutionEvent(msg Message) {
+	r.wrote = append(r.wrote, append([]byte{}, msg.ExtensionFields.PlatformData...))
+	r.wsnap = append(r.wsnap, vSnapOf(&msg))
+	r.wmsgs = append(r.wmsgs, msg)
+}
+
+// VerifC09Schedules (C09 and C06): the real registry, reader and writer goroutines; three frames
+// with symbolic serials and bodies (a heartbeat, a location report, a location report whose body
+// holds an escaped byte) arrive in three reads, settled or back to back, under the default schedule
+// and every schedule within the deviation bound - so the reader refills its 1023-byte buffer while
+// the writer is still answering an earlier message. On the final quiescent state: three messages
+// were shown to the read callback, in order, and each still equals its snapshot; the three replies
+// on the socket are general responses in request order, each echoing its own request's serial and
+// ID, with platform serials 0, 1, 2; each write callback saw exactly the bytes that were sent and a
+// message that still equals its snapshot; the same holds after the peer has closed.
+func VerifC09Schedules() {
+	vrt_ClockFrozen()
+	vrt_Sched(0)
+	g := &GoJT808{}
+	sm := newSessionManager(func(m *Message) (string, bool) { return m.JTMessage.Header.TerminalPhoneNo, true })
+	vrt_Go(sm.run)
+	conn := vrt_NewTCPConn()
+	vrt_ConnLive(conn)
+	ev := &c09Rec{conn: conn}
+	c := newConnection(conn, g.createDefaultHandle(), ev, true, sm.join, sm.leave)
+	vrt_Go(c.reader)
+	vrt_Go(c.write)
+	phone := []byte{0x01, 0x23, 0x45, 0x67, 0x89, 0x04}
+	mk := func(label string, id uint16, n int, special bool) *vFrame {
+		sb := vrt_Bytes(label+".serial", 2)
+		f := &vFrame{id: id, phone: phone, serial: uint16(sb[0])<<8 | uint16(sb[1]), body: vrt_Bytes(label+".body", n)}
+		k := 0
+		if special {
+			k = 1
+			vrt_Assume(vrtEscSpecial(f.body[n-1]))
+		}
+		vrtKSpecial(label+".sp", k, vrtEscSpecial, sb, f.body)
+		vNoSpecialChecksum(f)
+		return f
+	}
+	fs := []*vFrame{mk("hb", 0x0002, 0, false), mk("loc", 0x0200, 28, false), mk("esc", 0x0200, 28, true)}
+	vrt_Quiesce()
+	k := 1
+	if vrt_Tier() > 0 {
+		k = 2
+	}
+	backToBack := vrt_Choose("backToBack", 2) == 1
+	vrt_Sched(k)
+	for _, f := range fs {
+		vrt_ConnPushRead(conn, f.bytes())
+		if !backToBack {
+			vrt_Yield()
+		}
+	}
+	vrt_Quiesce()
+	check := func() {
+		vrt_Assert(len(ev.reads) == 3, "number of messages shown to the read callback differs")
+		ok := true
+		for i, m := range ev.reads {
+			ok = vrt_And(ok, vSnapEq(ev.readSnap[i], vSnapOf(m)))
+			ok = vrt_And(ok, m.JTMessage.Header.SerialNumber == fs[i].serial && m.JTMessage.Header.ID == fs[i].id)
+			ok = vrt_And(ok, vrt_BytesEq(m.JTMessage.Body, fs[i].body))
+		}
+		vrt_Assert(ok, "a delivered message changed after later data arrived, or messages were delivered out of order")
+		for i, w := range ev.writtenAtRead {
+			vrt_Assert(w <= i, "a reply was already on the socket when its request was reported to the read callback")
+		}
+		frames := c06Frames(vrt_ConnWritten(conn))
+		vrt_Assert(len(frames) == 3 && len(ev.wrote) == 3, "each request must get exactly one reply, reported once to the write callback")
+		for i, fr := range frames {
+			okf, id, ph, serial, body := c06Unframe(fr, false)
+			vrt_Assert(okf && id == 0x8001 && vrt_BytesEq(ph, phone), "reply is not a general response addressed to the sender")
+			vrt_Assert(serial == uint16(i), "platform serials of the replies are not 0, 1, 2 in order")
+			vrt_Assert(len(body) == 5 && uint16(body[0])<<8|uint16(body[1]) == fs[i].serial && uint16(body[2])<<8|uint16(body[3]) == fs[i].id && body[4] == 0, "reply does not echo its own request's serial and ID (in request order)")
+			vrt_Assert(vrt_BytesEq(ev.wrote[i], fr), "the write callback was shown bytes other than those sent")
+			vrt_Assert(vSnapEq(ev.wsnap[i], vSnapOf(&ev.wmsgs[i])), "a message shown to the write callback changed afterwards")
+		}
+	}
+	check()
+	vrt_ConnEOF(conn)
+	vrt_Quiesce()
+	check()
+	vrt_Cover("back-to-back", backToBack)
+	vrt_Cover("settled", !backToBack)
 }
